@@ -6,5 +6,5 @@ Extraction Blacklist String List Bool.
 
 Separate Extraction
   UmlBlob.parse_blob UmlBlob.load_cdiagram UmlBlob.to_cdiagram UmlBlob.adaptor UmlBlob.type_and_name UmlBlob.default_format
-  UmlBlob.container_type UmlBlob.clean_modifiers UmlBlob.dec
+  UmlBlob.container_type UmlBlob.clean_modifiers UmlBlob.dec UmlBlob.type_and_name_cs UmlBlob.to_cdiagram_cs UmlBlob.adaptor_cs
   UmlWriter.print_node UmlWriter.encode_cdiagram.
